@@ -5,7 +5,8 @@
 wt=$1; patch=$(realpath "$2"); shift 2
 git -C $wt checkout -q -- . ; git -C $wt clean -fdq
 git -C $wt apply "$patch" || { echo "patch does not apply"; exit 2; }
-cd /verif
+V=$(cd "$(dirname "$0")/.." && pwd)
+cd $V
 for id in "$@"; do
   out=$(VERIF_REPO=$wt VERIF_SEED=${VERIF_SEED:-1} ./check $id --tier ${TIER:-quick} 2>&1); rc=$?
   v=$(echo "$out" | grep -c "^VIOLATION")
